@@ -132,7 +132,7 @@ def impl_bb(text, what="bb", via_file=False):
         global _TMPDIR
         import tempfile
 
-        if _TMPDIR is None:
+        if _TMPDIR is None:       # replay path: no task around it
             _TMPDIR = tempfile.mkdtemp(prefix="vf-c10-")
             import atexit
             import shutil
@@ -291,6 +291,19 @@ class C10(Check):
         return out
 
     def run(self, task):
+        # files written for the file-or-string cases live in a per-task scratch directory that is removed when the task ends
+        global _TMPDIR
+        import shutil
+        import tempfile
+
+        _TMPDIR = tempfile.mkdtemp(prefix="vf-c10-")
+        try:
+            return self._run(task)
+        finally:
+            shutil.rmtree(_TMPDIR, ignore_errors=True)
+            _TMPDIR = None
+
+    def _run(self, task):
         res = Result()
         kind = task[0]
         obs = []
